@@ -186,6 +186,9 @@ type vC05Exec struct {
 	pool                [][]byte
 	lastPoint, lastKind string
 	lastHit             int
+	ptsOp               int // index of the operation the crash points belong to (-1: the first new one)
+	hits0               int // crash-point hits before the current operation
+	intent              vM  // the operation about to run, for the crash record
 }
 
 func vC05NewExec(out *vOut, p vC05Prog, dirTag string, stats map[string]int, hook *vC05Hook) *vC05Exec {
@@ -208,18 +211,50 @@ func (e *vC05Exec) batch() []*Message {
 	return msgs
 }
 
-// step runs one operation of the workload on the live log (with the C01 oracle attached).
-func (e *vC05Exec) step() {
+// step runs one operation of the workload and notes the crash points it passed.
+func (e *vC05Exec) step() { e.withPts(e.step1) }
+
+func (e *vC05Exec) withPts(f func()) {
+	h0, n0 := len(e.hook.seq), len(e.c.ops)
+	e.hits0 = e.hook.hits
+	e.ptsOp = -1
+	f()
+	if e.ptsOp >= 0 {
+		n0 = e.ptsOp // the operation proper follows a preparatory one
+	}
+	if len(e.c.ops) > n0 {
+		e.c.ops[n0]["pts"] = append([]string{}, e.hook.seq[h0:]...)
+	}
+}
+
+func vC05MsgsJSON(msgs []*Message) []vM {
+	var mj []vM
+	for _, m := range msgs {
+		mj = append(mj, vMsgJSON(m, vEncode(m)))
+	}
+	return mj
+}
+
+// step1 runs one operation on the live log (with the C01 oracle attached).
+func (e *vC05Exec) step1() {
 	c, r := e.c, e.r
 	nw := c.l.NewestOffset()
 	hw := c.l.HighWatermark()
 	switch r.pick(10, 3, 3, 4, 3, 1, 1) {
 	case 0:
 		e.cur = "append"
-		c.doAppend(e.batch())
+		msgs := e.batch()
+		e.intent = vM{"op": "append", "msgs": vC05MsgsJSON(msgs)}
+		c.doAppend(msgs)
 	case 1:
 		e.cur = "aset"
-		c.doAppendSet(e.batch(), nw+1)
+		msgs := e.batch()
+		var rj []vM
+		for i, m := range msgs {
+			rj = append(rj, vM{"off": nw + 1 + int64(i), "ts": m.Timestamp, "ep": m.LeaderEpoch, "body": vHex(vEncode(m))})
+		}
+		e.intent = vM{"op": "aset", "recs": rj}
+		c.doAppendSet(msgs, nw+1)
 	case 2:
 		if nw > hw {
 			o := hw + 1 + int64(r.intn(int(nw-hw)))
@@ -230,35 +265,46 @@ func (e *vC05Exec) step() {
 				}
 			}
 			e.cur, e.curArg = "trunc", o
+			e.intent = vM{"op": "trunc", "o": o}
 			c.doTruncate(o)
 		}
 	case 3:
 		e.cur = "clean"
 		switch e.p.profile {
 		case "retention":
+			// what retention removes has been replicated: the HW is at the log end
+			if nw >= 0 && hw < nw {
+				c.doHW(nw)
+			}
+			e.ptsOp = len(c.ops)
+			e.intent = vM{"op": "clean", "ttl": 0}
 			c.doCleanRetention(0)
 			e.hwInsideLog()
 		case "compact":
+			e.intent = vM{"op": "cleanc", "ttl": 0}
 			c.doCompact()
 		default:
 			e.cur = "append"
-			c.doAppend(e.batch())
+			msgs := e.batch()
+			e.intent = vM{"op": "append", "msgs": vC05MsgsJSON(msgs)}
+			c.doAppend(msgs)
 		}
 	case 4:
 		if nw >= 0 {
 			e.cur = "hw"
-			h := int64(r.intn(int(nw) + 1))
-			if od := c.l.OldestOffset(); h < od {
-				h = od
-			}
-			if h < hw {
-				h = hw
+			// the HW is the offset of a message that exists (an interrupted clean can leave holes)
+			h := hw
+			if len(c.ref) > 0 {
+				if x := c.ref[r.intn(len(c.ref))].off; x > h {
+					h = x
+				}
 			}
 			c.doHW(h)
 			if r.intn(2) == 0 {
 				if err := c.l.checkpointHW(); err != nil {
 					c.violation("checkpoint-failed", err.Error())
 				}
+				c.ops = append(c.ops, vM{"op": "ckpt"})
 			}
 		}
 	case 5:
@@ -280,6 +326,15 @@ func (e *vC05Exec) hwInsideLog() {
 	c := e.c
 	if c.viol || c.l == nil {
 		return
+	}
+	hw := c.l.HighWatermark()
+	for _, r := range c.ref {
+		if r.off >= hw {
+			if r.off > hw && hw >= 0 {
+				c.doHW(r.off) // the HW's own message is gone (below the log start, or in a hole left by an interrupted clean)
+			}
+			break
+		}
 	}
 	if od := c.l.OldestOffset(); od >= 0 && c.l.HighWatermark() < od {
 		c.doHW(od)
@@ -366,6 +421,8 @@ func (e *vC05Exec) runCrash(clean *vC05Exec, n int, childDisk func() []vC05File)
 			}()
 			if i == -1 {
 				e.cur = "create"
+				e.intent = vM{"op": "create"}
+				e.hits0 = e.hook.hits
 				c.open()
 			} else {
 				e.step()
@@ -396,19 +453,21 @@ func (e *vC05Exec) runCrash(clean *vC05Exec, n int, childDisk func() []vC05File)
 	stop := e.watch("the operations that follow")
 	defer stop()
 	// repeat the interrupted operation, as the restarted server would
-	switch e.cur {
-	case "trunc":
-		if e.curArg > c.l.HighWatermark() {
-			c.doTruncate(e.curArg)
+	e.withPts(func() {
+		switch e.cur {
+		case "trunc":
+			if e.curArg > c.l.HighWatermark() {
+				c.doTruncate(e.curArg)
+			}
+		case "clean":
+			if e.p.profile == "retention" {
+				c.doCleanRetention(0)
+				e.hwInsideLog()
+			} else if e.p.profile == "compact" {
+				c.doCompact()
+			}
 		}
-	case "clean":
-		if e.p.profile == "retention" {
-			c.doCleanRetention(0)
-			e.hwInsideLog()
-		} else if e.p.profile == "compact" {
-			c.doCompact()
-		}
-	}
+	})
 	if !c.viol {
 		c.state()
 	}
@@ -604,7 +663,8 @@ func (e *vC05Exec) recover(point string, step int, before, after []vRefRec, hwBe
 		}
 	}
 	c.ref = got
-	c.ops = append(c.ops, vM{"op": "crash", "point": point, "offs": obs.offs, "hw": obs.hw})
+	c.ops = append(c.ops, vM{"op": "crash", "intent": e.intent, "k": e.lastHit - e.hits0, "point": point, "disk": obs.disk,
+		"offs": obs.offs, "newest": obs.newest, "oldest": obs.oldest, "hw": obs.hw, "cache": obs.cache})
 	e.hwInsideLog()
 	return obs
 }
@@ -614,6 +674,12 @@ func (e *vC05Exec) done() {
 		vCatch(func() { e.c.l.Close() })
 	}
 	os.RemoveAll(e.c.dir)
+}
+
+func (e *vC05Exec) caseJSON(createCrash bool) vM {
+	o := e.c.opts
+	return vM{"k": "dcase", "id": e.p.id, "seed": e.p.seed, "profile": e.p.profile, "maxb": o.MaxSegmentBytes, "ret_msgs": o.MaxLogMessages, "ret_bytes": o.MaxLogBytes,
+		"compact": o.Compact, "create_crash": createCrash, "ops": e.c.ops}
 }
 
 func vC05ObsJSON(p vC05Prog, n int, o *vC05Obs, ops []vM) vM {
@@ -679,6 +745,9 @@ func TestVerifC05(t *testing.T) {
 		clean := vC05NewExec(out, p, "", stats, hook)
 		ok := clean.runClean()
 		total := hook.hits
+		if ok {
+			out.emit(clean.caseJSON(false))
+		}
 		clean.done()
 		if !ok {
 			continue // a violation without any crash is C01's concern and has been emitted
@@ -704,7 +773,10 @@ func TestVerifC05(t *testing.T) {
 			obs := e.runCrash(clean, n, child)
 			replays++
 			if obs != nil {
-				out.emit(vC05ObsJSON(p, n, obs, e.c.ops))
+				out.emit(vC05ObsJSON(p, n, obs, nil))
+				if !e.c.viol {
+					out.emit(e.caseJSON(obs.step == -1))
+				}
 			} else if !e.c.viol {
 				out.emit(vM{"k": "violation", "prop": "tie", "sig": "no-crash", "what": fmt.Sprintf("replay of program %d did not reach hit %d of %d", p.id, n, total), "case": vM{"seed": p.seed}})
 			}
